@@ -1,6 +1,7 @@
 package ratelimiter
 
 import (
+	stdcontext "context"
 	"net/http"
 	"net/url"
 	"time"
@@ -259,5 +260,48 @@ func verifC09_FilterPolicy() {
 	}
 	if ti == 1 {
 		verifCover("explicit-zero-timeout")
+	}
+}
+
+// verifC09_CancelledWaiter: requests that arrive at one instant reserve permits in consecutive
+// periods; one of the waiting ones may be cancelled by its client (it is not forwarded). Whatever
+// happens to its reservation, the requests that ARE forwarded are released at most
+// limitForPeriod per period: release time = arrival + imposed wait.
+func verifC09_CancelledWaiter() {
+	period := 10 * time.Millisecond
+	spec := &Spec{
+		Policies:         []*Policy{{Name: "p", TimeoutDuration: "1s", LimitRefreshPeriod: "10ms", LimitForPeriod: 1}},
+		DefaultPolicyRef: "p",
+		URLs:             []*URLRule{{URLRule: urlrule.URLRule{URL: urlrule.StringMatch{Prefix: "/"}}}},
+	}
+	verifAssume(spec.Validate() == nil)
+	vMono = 1000
+	rl := &RateLimiter{spec: spec}
+	rl.Init()
+	n := 4
+	cancelled := verifChoose("cancelledRequest", n+1) // n = none
+	var released [8]int                               // releases per period (index = period number)
+	for i := 0; i < n; i++ {
+		std := &http.Request{Method: "GET", URL: &url.URL{Path: "/x"}, Header: http.Header{}}
+		if i == cancelled {
+			cctx, cancel := stdcontext.WithCancel(stdcontext.Background())
+			cancel()
+			std = std.WithContext(cctx)
+		}
+		vTimerWaits, vLastTimer = 0, 0
+		res, _ := vHandle(rl, &httpprot.Request{Request: std})
+		verifAssert(res == "", "admitted-within-the-timeout")
+		if i == cancelled && vTimerWaits > 0 {
+			verifCover("waiting-request-cancelled")
+			continue // the client is gone: not forwarded, not a release
+		}
+		wait := time.Duration(0)
+		if vTimerWaits > 0 {
+			wait = vLastTimer
+		}
+		k := int(wait / period)
+		verifAssert(wait%period == 0 && k < 8, "released-at-a-period-start")
+		released[k]++
+		verifAssert(released[k] <= 1, "at-most-limitForPeriod-releases-per-period")
 	}
 }
